@@ -35,6 +35,8 @@ class Model(SOCModel):
         self.aux_bounds = []
         self.aux_ipc = []
         self.cvx_constr = []
+        self.ip_constr = []
+        self.det_constr = []
 
     def st(self, constr):
 
